@@ -8,10 +8,13 @@ def ssts_tmpl(i, npts, nlp=3):
             "train_res": strap_res_tmpl(), "path_tpc": path_tpc_tmpl(nlp), "save_interval": None}
 
 
-def trace_domain(S, npts):
+def trace_domain(S, npts, strict=True):
     d = []
     for j in range(npts - 1):
-        d.append((f"t{j} < t{j+1} (irregular but increasing time stamps)", S[f"t{j}"] < S[f"t{j+1}"]))
+        if strict:
+            d.append((f"t{j} < t{j+1} (irregular but increasing time stamps)", S[f"t{j}"] < S[f"t{j+1}"]))
+        else:
+            d.append((f"t{j} <= t{j+1} (time stamps may repeat)", S[f"t{j}"] <= S[f"t{j+1}"]))
     return d
 
 
@@ -49,10 +52,10 @@ def required_pwr_case(i, npts):
                 bounds={"trace points": npts, "step index": i}, notes=["consist state (published limits), train state and trace symbolic"], timeout_ms=60000)
 
 
-def step_case(i, npts, nlp=3):
+def step_case(i, npts, nlp=3, strict_time=True):
     """whole SetSpeedTrainSim::solve_step on a one-DummyLoco consist (accepts every demand)"""
     def assume(S):
-        d = trace_domain(S, npts) + path_domain(S, nlp)
+        d = trace_domain(S, npts, strict_time) + path_domain(S, nlp)
         d += [("masses > 0", z3.And(S["ts_mass_static"] > 0, S["ts_mass_rot"] >= 0)), ("train length > 0", S["ts_length"] > 0),
               ("rear of the train on the path", S["ts_offset"] - S["ts_length"] >= 0),
               ("front stays within the path profile", z3.And(S["ts_offset"] <= S["go1"], S["ts_offset"] <= S["ko1"])),
@@ -75,6 +78,7 @@ def step_case(i, npts, nlp=3):
 
 
 def m_cases(tier):
+    tier = "thorough"  # the full case list is cheap enough to run on every change (the tiers differ only in validation vectors)
     cs = [required_pwr_case(1, 2), required_pwr_case(2, 3), step_case(1, 2), step_case(2, 3)]
     if tier == "thorough":
         cs += [required_pwr_case(1, 3), required_pwr_case(3, 4), step_case(1, 3), step_case(3, 4, 4)]
